@@ -299,49 +299,59 @@ impl Pattern {
      *
      * The algorithm is the same as pkg_install's alternate_match(): expand the
      * first (left-most) group, whose closing brace and separating commas are
-     * those at its own nesting depth, and recursively call Pattern on each
-     * result to expand any nested or following groups and perform the match.
+     * those at its own nesting depth, and leave any nested or following groups
+     * of each result to the next round.  A fully expanded string is matched as
+     * a pattern in its own right.
+     *
+     * The partially expanded strings are kept on an explicit work list rather
+     * than handled by recursing through Pattern::matches(), so that the depth
+     * of the call stack does not grow with the number of groups.
      */
     fn alternate_match(pattern: &str, pkg: &str) -> bool {
-        /* This shouldn't fail as new() already verified, but... */
-        let Some(start) = pattern.find('{') else {
-            return false;
-        };
-        let (first, rest) = pattern.split_at(start);
+        let mut work = vec![pattern.to_string()];
 
-        let mut depth = 0;
-        let mut alt = 1;
-        let mut alts = vec![];
-        let mut end = None;
-        for (i, ch) in rest.char_indices() {
-            match ch {
-                '{' => depth += 1,
-                '}' => {
-                    depth -= 1;
-                    if depth == 0 {
-                        alts.push(&rest[alt..i]);
-                        end = Some(i);
-                        break;
+        while let Some(pattern) = work.pop() {
+            let Some(start) = pattern.find('{') else {
+                if let Ok(pat) = Pattern::new(&pattern) {
+                    if pat.matches(pkg) {
+                        return true;
                     }
                 }
-                ',' if depth == 1 => {
-                    alts.push(&rest[alt..i]);
-                    alt = i + 1;
-                }
-                _ => {}
-            }
-        }
-        let Some(end) = end else {
-            return false;
-        };
-        let last = &rest[end + 1..];
+                continue;
+            };
+            let (first, rest) = pattern.split_at(start);
 
-        for m in alts {
-            let fmt = format!("{}{}{}", first, m, last);
-            if let Ok(pat) = Pattern::new(&fmt) {
-                if pat.matches(pkg) {
-                    return true;
+            let mut depth = 0;
+            let mut alt = 1;
+            let mut alts = vec![];
+            let mut end = None;
+            for (i, ch) in rest.char_indices() {
+                match ch {
+                    '{' => depth += 1,
+                    '}' => {
+                        depth -= 1;
+                        if depth == 0 {
+                            alts.push(&rest[alt..i]);
+                            end = Some(i);
+                            break;
+                        }
+                    }
+                    ',' if depth == 1 => {
+                        alts.push(&rest[alt..i]);
+                        alt = i + 1;
+                    }
+                    _ => {}
                 }
+            }
+            /* This shouldn't fail as new() already verified, but... */
+            let Some(end) = end else {
+                continue;
+            };
+            let last = &rest[end + 1..];
+
+            /* Pushed in reverse so that the first alternative is tried first. */
+            for m in alts.iter().rev() {
+                work.push(format!("{}{}{}", first, m, last));
             }
         }
         false
